@@ -96,7 +96,9 @@ def handle (toks : List String) : String :=
       let alpha := (rest.take k).map decodeTok
       let pre := (rest.drop k).map decodeTok
       if pre.length > n then "bad-op"
-      else "D " ++ hex64 (digestAll s alpha (n - pre.length) pre.reverse fnvInit)
+      else match construct s.op with
+      | .error e => excName e      -- the constructor throws before anything is enumerated
+      | .ok () => "D " ++ hex64 (digestAll s alpha (n - pre.length) pre.reverse fnvInit)
     | _, _, _ => "bad-op"
   | _ => "bad-op"
 
